@@ -785,6 +785,48 @@ def r18b_hoist_question_mark(text):
             return text, cnt
 
 
+def r7_expand_repo_macros(text, macro_file, names=("tx",)):
+    """R7: invocations `NAME!(ARG1, ARG2)` of the repository's own `macro_rules!` macros (p2panda-store/src/macros.rs) are
+    expanded textually with the macro body READ FROM THE REPOSITORY AT RUN TIME: the single arm
+    `($a:expr, $b:expr) => {{ BODY }};` is instantiated with the argument texts.  `use $crate::...;` lines of the body
+    (trait imports) are dropped.  A macro definition that no longer has this shape raises LostAnchor."""
+    from .extract import LostAnchor
+    cnt = 0
+    try:
+        msrc = open(macro_file).read()
+    except OSError as e:
+        raise LostAnchor("R7: cannot read %s: %s" % (macro_file, e))
+    mm = L.mask(msrc)
+    for name in names:
+        if not re.search(r"\b%s\s*!\s*\(" % name, L.mask(text)):
+            continue
+        k = re.search(r"macro_rules!\s*%s\s*\{" % name, mm)
+        if not k:
+            raise LostAnchor("R7: macro_rules! %s not found in %s" % (name, macro_file))
+        bo = k.end() - 1
+        bc = L.match_close(mm, bo)
+        arm = msrc[bo + 1:bc]
+        am = re.match(r"\s*\(\s*\$(\w+)\s*:\s*expr\s*,\s*\$(\w+)\s*:\s*expr\s*\)\s*=>\s*\{\{(.*)\}\}\s*;?\s*$", arm, re.S)
+        if not am:
+            raise LostAnchor("R7: macro %s no longer has the shape ($a:expr, $b:expr) => {{ .. }}" % name)
+        a, b, body = am.group(1), am.group(2), am.group(3)
+        body = re.sub(r"^\s*use\s+\$crate::[^;]*;\s*$", "", body, flags=re.M)
+        while True:
+            m = L.mask(text)
+            r = re.search(r"\b%s\s*!\s*\(" % name, m)
+            if not r:
+                break
+            po = r.end() - 1
+            pc = L.match_close(m, po)
+            args = _split_top_commas(m[po + 1:pc], text[po + 1:pc])
+            if len(args) != 2:
+                raise LostAnchor("R7: %s! invoked with %d arguments" % (name, len(args)))
+            inst = body.replace("$" + a, args[0].strip()).replace("$" + b, args[1].strip())
+            text = text[:r.start()] + "{" + inst + "}" + text[pc + 1:]
+            cnt += 1
+    return text, cnt
+
+
 def r22_entry_and_modify(text):
     """R22: the Entry-API chain, as a statement,
          RECV.entry(K).and_modify(|x| BODY).or_insert(V);   ->  { let k__ = K; match RECV.get_mut(&k__) { Some(x) => { BODY } None => { RECV.insert(k__, V); } } }
